@@ -13,14 +13,14 @@ use serde_json::json;
 pub const SPEC: PropSpec = PropSpec {
 	id: "C08",
 	level: "exploration",
-	rule: "per case: schema AST (incl. equal short names in different namespaces, recursion, sharing, logical types) -> 3 random JSON spellings + the builder API; for each: canonical form text (hook H1) == reference canonical form of the AST, SchemaMut::canonical_form_rabin_fingerprint == Schema::rabin_fingerprint == little-endian bitwise CRC-64-AVRO of it, identical across spellings; one canonical-form-changing edit (rename, swap fields, change symbol/size, reorder union, edit inside the second of two same-short-name types) must change the fingerprint, also when applied in place through nodes_mut() to an object whose fingerprint was already queried 0-2 times (then re-queried and frozen; a clone taken before the edit keeps the old one). once per run: the table-driven step (hook H2) against the bitwise definition on the full 2^16 x 2^8 subspace, the 64+8 unit vectors, GF(2)-linearity of the 256-entry table over all 256x256 index pairs, 2x10^6 random (state, byte) pairs and the affine identity on random triples. distinct by hash(canonical form)",
+	rule: "per case: schema AST (incl. equal short names in different namespaces, recursion, sharing, logical types; one in six with field names / symbols containing spaces, non-ASCII letters, combining marks) -> 3 random JSON spellings + the builder API; for each: canonical form text (hook H1) == reference canonical form of the AST, SchemaMut::canonical_form_rabin_fingerprint == Schema::rabin_fingerprint == little-endian bitwise CRC-64-AVRO of it, identical across spellings; one canonical-form-changing edit (rename, swap fields, change symbol/size, reorder union, edit inside the second of two same-short-name types) must change the fingerprint, also when applied in place through nodes_mut() to an object whose fingerprint was already queried 0-2 times (then re-queried and frozen; a clone taken before the edit keeps the old one). once per run: the table-driven step (hook H2) against the bitwise definition on the full 2^16 x 2^8 subspace, the 64+8 unit vectors, GF(2)-linearity of the 256-entry table over all 256x256 index pairs, 2x10^6 random (state, byte) pairs and the affine identity on random triples. distinct by hash(canonical form)",
 	assumptions: &[
 		"the step is (s >> 8) ^ T[(s ^ b) & 0xFF]; agreement on a GF(2) basis plus table linearity extends to all 2^64 x 256 pairs by an affine-map argument, not by observation (exhaustive: false)",
 		"a CRC collision between distinct canonical forms is counted as inconclusive",
 	],
 	cases: (50_000_000, 4_000_000_000),
 	secs: (30, 600),
-	required: &["fingerprints_ok", "spellings_agree", "edits_change_fingerprint", "in_place_edit_histories_ok", "step_pairs_checked"],
+	required: &["fingerprints_ok", "schemas_with_unusual_names", "spellings_agree", "edits_change_fingerprint", "in_place_edit_histories_ok", "step_pairs_checked"],
 	run_case,
 	once: Some(once),
 	panics_are_violations: true,
@@ -138,7 +138,36 @@ pub fn run_case(ctx: &mut Ctx, case_seed: u64) {
 	let mut rng = Rng::new(case_seed);
 	let mut cfg = SchemaGenCfg::default();
 	cfg.max_nodes = *rng.pick(&[1, 4, 10, 24, 40]);
-	let rs = gen_schema(&mut rng, &cfg);
+	let mut rs = gen_schema(&mut rng, &cfg);
+	// [STRINGS]: the canonical form carries names as they are, whatever they contain. Now and then field names and
+	// symbols get a space, a non-ASCII letter, a combining mark or a CJK character (the crate accepts such names)
+	if rng.chance(1, 6) {
+		let mut unusual = 0;
+		for n in rs.nodes.iter_mut() {
+			match &mut n.kind {
+				Kind::Record { fields, .. } => {
+					for (k, f) in fields.iter_mut().enumerate() {
+						if rng.chance(1, 3) {
+							f.0 = format!("{}{}{k}", f.0, rng.pick(&[" x", "é", "e\u{301}", "名", "ß "]));
+							unusual += 1;
+						}
+					}
+				}
+				Kind::Enum { symbols, .. } => {
+					for (k, sy) in symbols.iter_mut().enumerate() {
+						if rng.chance(1, 3) {
+							*sy = format!("{sy}{}{k}", rng.pick(&[" y", "ü", "o\u{308}", "語"]));
+							unusual += 1;
+						}
+					}
+				}
+				_ => {}
+			}
+		}
+		if unusual > 0 {
+			ctx.count("schemas_with_unusual_names");
+		}
+	}
 	let pcf = rs.pcf();
 	let want_fp = crc64_avro(pcf.as_bytes()).to_le_bytes();
 	let mut texts: Vec<Option<String>> = vec![Some(rs.spell(None).compact())];
